@@ -66,8 +66,8 @@ func (c *c24Case) tx(e *c31Env, id int, kind byte) *common.VersionedTransaction 
 	switch kind {
 	case 'p':
 		ver = e.spend(c31Spec{kind: 'v', nIn: 1, nSigs: 1}, 0)
-		must(e.store.LockUTXOs(ver.Inputs, ver.PayloadHash(), false))
-		must(e.store.WriteTransaction(ver))
+		c31Must(e.store.LockUTXOs(ver.Inputs, ver.PayloadHash(), false))
+		c31Must(e.store.WriteTransaction(ver))
 	case 'f':
 		ver = e.spend(c31Spec{kind: 'f', nIn: 1, nSigs: 1}, 0)
 	default:
@@ -75,9 +75,9 @@ func (c *c24Case) tx(e *c31Env, id int, kind byte) *common.VersionedTransaction 
 		ver = common.NewTransactionV5(crypto.Blake3Hash([]byte(fmt.Sprintf("c24-asset-%d", e.seq)))).AsVersioned()
 		switch kind {
 		case 'c':
-			must(e.store.CacheStoreTransaction(ver))
+			c31Must(e.store.CacheStoreTransaction(ver))
 		case 'q':
-			must(e.store.CacheQueueTransaction(ver))
+			c31Must(e.store.CacheQueueTransaction(ver))
 		}
 	}
 	c.txs[id], c.kinds[id] = ver, kind
@@ -144,7 +144,7 @@ func (c *c24Case) queue(e *c31Env) []int {
 	var all []*common.VersionedTransaction
 	for {
 		txs, err := e.store.CacheRetrieveTransactions(common.SnapshotTransactionsMaximum)
-		must(err)
+		c31Must(err)
 		if len(txs) == 0 {
 			break
 		}
@@ -156,7 +156,7 @@ func (c *c24Case) queue(e *c31Env) []int {
 			panic("harness: c24: foreign transaction in the cache queue")
 		}
 		ids = append(ids, id)
-		must(e.store.CacheQueueTransaction(t))
+		c31Must(e.store.CacheQueueTransaction(t))
 	}
 	sort.Ints(ids)
 	return ids
@@ -192,10 +192,10 @@ func (c *c24Case) dump(e *c31Env) string {
 	for _, e := range kvs {
 		vp = append(vp, fmt.Sprintf("%d=%d", e.k, e.v))
 	}
-	return fmt.Sprintf("aggs:%s vers:%s queue:%s", joinInts(c.aggIds()), strings.Join(vp, ","), joinInts(c.queue(e)))
+	return fmt.Sprintf("aggs:%s vers:%s queue:%s", c24JoinInts(c.aggIds()), strings.Join(vp, ","), c24JoinInts(c.queue(e)))
 }
 
-func joinInts(xs []int) string {
+func c24JoinInts(xs []int) string {
 	var p []string
 	for _, x := range xs {
 		p = append(p, strconv.Itoa(x))
@@ -203,7 +203,7 @@ func joinInts(xs []int) string {
 	return strings.Join(p, ",")
 }
 
-func contains(xs []int, x int) bool {
+func c24Contains(xs []int, x int) bool {
 	for _, y := range xs {
 		if x == y {
 			return true
@@ -231,19 +231,19 @@ func execC24(st *State, line string) Result {
 	ints := func(ss []string) []int {
 		var r []int
 		for _, s := range ss {
-			r = append(r, atoi(s))
+			r = append(r, c31Atoi(s))
 		}
 		return r
 	}
 	switch t[0] {
 	case "tx":
-		c.tx(e, atoi(t[1]), t[2][0])
+		c.tx(e, c31Atoi(t[1]), t[2][0])
 		res.Tags = append(res.Tags, "tx:"+t[2])
 		res.Out = "ok"
 		return res
 	case "agg": // agg hash round ts commitments responses ntx txs…  (the model also gets the threshold)
-		a := c24Agg{hash: atoi(t[1]), round: atoi(t[2]), ts: uint64(atoi(t[3])), commitments: atoi(t[4]), resps: atoi(t[5]), txs: ints(t[7:])}
-		if len(a.txs) != atoi(t[6]) || c.h != nil {
+		a := c24Agg{hash: c31Atoi(t[1]), round: c31Atoi(t[2]), ts: uint64(c31Atoi(t[3])), commitments: c31Atoi(t[4]), resps: c31Atoi(t[5]), txs: ints(t[7:])}
+		if len(a.txs) != c31Atoi(t[6]) || c.h != nil {
 			panic("harness: bad agg line")
 		}
 		c.aggs = append(c.aggs, a)
@@ -262,7 +262,7 @@ func execC24(st *State, line string) Result {
 		if c.h != nil {
 			panic("harness: bad ver line")
 		}
-		c.vers = append(c.vers, [4]uint64{uint64(atoi(t[1])), uint64(atoi(t[2])), uint64(atoi(t[3])), uint64(atoi(t[4]))})
+		c.vers = append(c.vers, [4]uint64{uint64(c31Atoi(t[1])), uint64(c31Atoi(t[2])), uint64(c31Atoi(t[3])), uint64(c31Atoi(t[4]))})
 		res.Out = "ok"
 		return res
 	}
@@ -276,10 +276,10 @@ func execC24(st *State, line string) Result {
 	out, panicked, msg := Catch(func() string {
 		switch t[0] {
 		case "expire":
-			c.h.Expire(uint64(atoi(t[1])))
+			c.h.Expire(uint64(c31Atoi(t[1])))
 		case "retry", "abandon": // retry hash ntx txs…
 			txs := ints(t[3:])
-			snaps := []kernel.VerifC24Snap{{Hash: c.key(e, atoi(t[1]))}}
+			snaps := []kernel.VerifC24Snap{{Hash: c.key(e, c31Atoi(t[1]))}}
 			for _, x := range txs {
 				snaps[0].Txs = append(snaps[0].Txs, c.key(e, x))
 			}
@@ -291,7 +291,7 @@ func execC24(st *State, line string) Result {
 			} else {
 				tmp.Abandon(0)
 			}
-			txsOf[atoi(t[1])] = txs
+			txsOf[c31Atoi(t[1])] = txs
 		case "resetround":
 			owned = ints(t[2:])
 			var hs []crypto.Hash
@@ -300,7 +300,7 @@ func execC24(st *State, line string) Result {
 			}
 			c.h.Reset(hs)
 		case "announce": // announce hash round ts ntx txs…
-			round, ts := uint64(atoi(t[2])), uint64(atoi(t[3]))
+			round, ts := uint64(c31Atoi(t[2])), uint64(c31Atoi(t[3]))
 			var txs []*common.VersionedTransaction
 			for _, x := range ints(t[5:]) {
 				txs = append(txs, c.tx(e, x, 'm'))
@@ -314,11 +314,11 @@ func execC24(st *State, line string) Result {
 				hs, _ := c.h.Dump()
 				for _, h := range hs {
 					if _, ok := c.byHash[h]; !ok {
-						c.byHash[h] = atoi(t[1])
-						c.snapHash[atoi(t[1])] = h
+						c.byHash[h] = c31Atoi(t[1])
+						c.snapHash[c31Atoi(t[1])] = h
 					}
 				}
-				c.aggs = append(c.aggs, c24Agg{hash: atoi(t[1]), round: int(round), ts: ts, commitments: 1, txs: ints(t[5:])})
+				c.aggs = append(c.aggs, c24Agg{hash: c31Atoi(t[1]), round: int(round), ts: ts, commitments: 1, txs: ints(t[5:])})
 				res.Tags = append(res.Tags, "announce:installed")
 			} else {
 				res.Tags = append(res.Tags, "announce:guarded")
@@ -341,20 +341,20 @@ func execC24(st *State, line string) Result {
 	if t[0] == "expire" || t[0] == "retry" || t[0] == "resetround" {
 		retired := 0
 		for _, a := range aggsBefore {
-			if contains(aggsAfter, a) {
+			if c24Contains(aggsAfter, a) {
 				continue
 			}
 			retired++
 			for _, x := range txsOf[a] {
-				if c.pending(x) && !contains(owned, x) && !contains(queueAfter, x) {
+				if c.pending(x) && !c24Contains(owned, x) && !c24Contains(queueAfter, x) {
 					res.PropKey = "C24:retired-tx-lost"
 					res.PropDesc = fmt.Sprintf("%s retired proposal %d but its pending transaction %d is not in the cache queue", t[0], a, x)
 				}
 			}
 		}
-		if t[0] == "retry" && !contains(aggsBefore, atoi(t[1])) {
-			for _, x := range txsOf[atoi(t[1])] {
-				if c.pending(x) && !contains(queueAfter, x) {
+		if t[0] == "retry" && !c24Contains(aggsBefore, c31Atoi(t[1])) {
+			for _, x := range txsOf[c31Atoi(t[1])] {
+				if c.pending(x) && !c24Contains(queueAfter, x) {
 					res.PropKey, res.PropDesc = "C24:retired-tx-lost", fmt.Sprintf("retry of %s lost pending transaction %d", t[1], x)
 				}
 			}
@@ -363,18 +363,18 @@ func execC24(st *State, line string) Result {
 			res.Tags = append(res.Tags, t[0]+":retired")
 		}
 		for _, x := range queueAfter {
-			if contains(queueBefore, x) {
+			if c24Contains(queueBefore, x) {
 				continue
 			}
 			res.Tags = append(res.Tags, t[0]+":requeued")
-			if contains(owned, x) {
+			if c24Contains(owned, x) {
 				res.PropKey, res.PropDesc = "C24:owned-requeued", fmt.Sprintf("round reset requeued owned transaction %d", x)
 			}
 			if !c.pending(x) {
 				res.PropKey, res.PropDesc = "C24:non-pending-requeued", fmt.Sprintf("%s queued transaction %d which is finalized or has no body", t[0], x)
 			}
 			for _, a := range aggsAfter {
-				if contains(txsOf[a], x) {
+				if c24Contains(txsOf[a], x) {
 					res.Tags = append(res.Tags, t[0]+":requeued-tx-of-active")
 					if !c.handMade && t[0] == "expire" {
 						res.PropKey = "C24:expire-requeues-tx-of-active-overlap"
